@@ -195,7 +195,9 @@ def run_case(spec, ctx):
                         f = rhs_at[j][i]
                         if math.isfinite(f) and math.isfinite(x + dt * f):
                             cmp_self += 1
-                            bound = 4 * U * max(abs(x), abs(dt * f)) + 1e-300
+                            # two IEEE operations, plus a few ulp of f itself: a jitted step recomputes f inside another
+                            # compiled kernel (other vectorised exp/log code paths), so f is not bit-identical to rhs()'s
+                            bound = 4 * U * max(abs(x), abs(dt * f)) + 64 * U * abs(dt * f) + 1e-300
                             if not (abs(got - (x + dt * f)) <= bound):
                                 if len(out["violations"]) < 6:
                                     out["violations"].append({"kind": "not_x_plus_dt_rhs", "detail": {"fn": fn, "state": s, "x": x, "dt": dt, "rhs": f, "got": got, "want": x + dt * f, "backend": be}})
